@@ -724,6 +724,9 @@ func (w *World) newValue(o Op, into *Cont) (MV, atree.Value, error) {
 		}
 		return mv, rv, nil
 	}
+	if o.V == "fit" || o.V == "fit+" {
+		o.V = w.fitClass(o, into, o.V == "fit+")
+	}
 	// nested container classes: [s:]*A[:cls,cls…] / [s:]*M[:cls,…] create, populate and hand over a new child
 	wraps := 0
 	cl := o.V
@@ -784,6 +787,106 @@ func (w *World) newValue(o Op, into *Cont) (MV, atree.Value, error) {
 	w.Serial++
 	mv := MakeSimple(Class(o.V), w.Serial)
 	return mv, ToAtree(mv), nil
+}
+
+// fitClass resolves the dynamic classes "fit" / "fit+": a string sized so that, after this operation, the nested
+// container `into` (a single slab) has an inlined size EXACTLY equal to (fit) or one byte over (fit+) the limit its
+// parent allows for that element — the two sides of the inlined/standalone boundary.  Falls back to "t" where no
+// such size exists (root containers, multi-slab children, sizes a string cannot have).
+func (w *World) fitClass(o Op, into *Cont, over bool) string {
+	if into == nil || into.Parent == nil {
+		return "t"
+	}
+	_, _, _, maxArr, maxMapElem, maxKey := atree.VerifThresholds()
+	wk := w.DoWalk()
+	var slab atree.Slab
+	if s, ok := wk.Inlined[into.VID]; ok {
+		slab = s
+	} else if r := wk.ByID[into.SID]; r != nil {
+		slab = r.Slab
+	}
+	if slab == nil {
+		return "t"
+	}
+	info := atree.VerifDescribeSlab(slab)
+	if info.Kind != "arrayData" && info.Kind != "mapData" {
+		return "t"
+	}
+	cur := int64(inlinedSizeOf(&info))
+	sizeOf := func(v MV) int64 {
+		switch v := v.(type) {
+		case Scalar:
+			return int64(ScalarSize(v.N))
+		case Str:
+			return int64(StrSize(v.S))
+		}
+		return -1
+	}
+	// the limit the parent grants this child
+	p := into.Parent
+	limit := int64(maxArr)
+	if p.IsMap {
+		pos := childPos(p, into)
+		if pos < 0 {
+			return "t"
+		}
+		ks := sizeOf(p.Keys[pos])
+		if ks < 0 || ks > int64(maxKey) {
+			return "t"
+		}
+		limit = int64(maxMapElem) - ks - 1
+	}
+	limit -= 2 * int64(into.Wrap)
+	if over {
+		limit++
+	}
+	// what the operation adds besides the new value itself
+	var want int64
+	switch o.K {
+	case "append", "insert":
+		want = limit - cur
+	case "set":
+		if int(o.I) >= len(into.Elems) {
+			return "t"
+		}
+		old := sizeOf(into.Elems[o.I])
+		if old < 0 {
+			return "t"
+		}
+		want = limit - cur + old
+	case "mset":
+		key := w.KeyOf(o.Key)
+		ks := sizeOf(key)
+		if ks < 0 {
+			return "t"
+		}
+		found := -1
+		for i, mk := range into.Keys {
+			if mvEqualKey(mk, key) {
+				found = i
+			}
+		}
+		if found >= 0 {
+			old := sizeOf(into.Vals[found])
+			if old < 0 {
+				return "t"
+			}
+			want = limit - cur + old
+		} else {
+			want = limit - cur - 8 - 1 - ks
+		}
+	default:
+		return "t"
+	}
+	// the element itself must stay inlinable in the child, and be a size a string can have
+	elemMax := int64(maxArr)
+	if into.IsMap {
+		elemMax = int64(maxMapElem) - 3 - 1
+	}
+	if want < 2 || want > elemMax || want == 25 || want == 258 || want == 259 {
+		return "t"
+	}
+	return fmt.Sprintf("s%d", want)
 }
 
 func isContClass(cl string) bool {
